@@ -61,7 +61,7 @@ def triage(rep, prop, mod, raw, classify):
     n_checked = 0
     seen_src = set()
     for v in raw:
-        key = (v['source'], json.dumps(v['options'], sort_keys=True), v['obligation'])
+        key = (v['source'], json.dumps(v['options'], sort_keys=True), v['obligation'], json.dumps(v.get('info'), sort_keys=True, default=str))
         if key in seen_src:
             continue
         seen_src.add(key)
